@@ -16,6 +16,7 @@ Keys are int / float / str python values.
 """
 import functools
 import pickle
+import re
 
 import yaml
 
@@ -151,6 +152,17 @@ def _float_text(v):
 _ALT = {True: 'yes', False: 'off', None: '~'}
 
 
+_FSTR_LIKE = re.compile(r"^\s*f(['\"]).*\1\s*$")
+
+
+def block_ok(v):
+    """Can the string be written as a literal block scalar (|-) without any indentation / chomping subtleties?"""
+    if not isinstance(v, str) or not v:
+        return False
+    lines = v.split('\n')
+    return all(ln and ln == ln.strip() and all(0x20 <= ord(c) < 0x7f or ord(c) > 0xa0 for c in ln) for ln in lines) and not v.startswith('#')
+
+
 def _candidates(v, q):
     """Texts to try for scalar v, preferred style first."""
     if v is None:
@@ -170,6 +182,9 @@ def _candidates(v, q):
         order = {'plain': [v, sgl, dbl], 'single': [sgl, dbl], 'double': [dbl], 'alt': [dbl]}.get(q, [v, sgl, dbl])
         if not simple:
             order = [dbl]
+        if _FSTR_LIKE.match(v):
+            # an unquoted scalar of this shape is an (implicit) f-string for awesomeyaml: an ordinary string must be quoted
+            order = [x for x in order if x != v]
         return order
     raise HarnessError(f'unsupported scalar {v!r}')
 
@@ -291,6 +306,9 @@ class Renderer:
             lines = n['text'].split('\n')
             pad = ' ' * (indent + 2)
             return ' ' + (tg + ' ' if tg else '') + '|-\n' + '\n'.join(pad + ln if ln else '' for ln in lines)
+        if n['t'] == 'sc' and n.get('q') == 'block' and block_ok(n['v']):
+            pad = ' ' * (indent + 2)
+            return ' ' + (tg + ' ' if tg else '') + '|-\n' + '\n'.join(pad + ln for ln in n['v'].split('\n'))
         if self.is_inline(n):
             body = self.inline(n)
             s = ' '.join(x for x in (tg, body) if x)
